@@ -4,8 +4,9 @@
 //   alloc <lenB> <addrspec> <flags>           -> alloc <rc> <addr> <len> <fsize> bm=<bmoff>,<bmlen>
 //   dealloc #j [<s> <n>]                      -> dealloc <rc> <addr> <len>      (whole live region j, or n blocks from block s)
 //   rawdealloc <addrspec> <lenB>              -> rawdealloc <rc>
-//   realloc #j <nlenB> <flags>                -> realloc <rc> <oaddr> <olen> <addr> <len> pat=ok|bad bm=<bmoff>,<bmlen>
-//   rawrealloc <addrspec> <olenB> <nlenB> <flags> -> rawrealloc <rc> <addr> <len>
+//   realloc #j <nlenB> <flags>                -> realloc <rc> <oaddr> <olen> <addr> <len> pat=ok|bad bm=<bmoff>,<bmlen> cp=<from>,<n>,<to>|-
+//   rawrealloc <addrspec> <olenB> <nlenB> <flags> -> rawrealloc <rc> <addr> <len> cp=<from>,<n>,<to>|-
+//     cp = the arguments of the pool.copy call the allocator made during the call (recorded by a hook on fsm->pool.copy)
 //   status <addrspec> <lenB|=> <0|1>          -> status <rc>
 //   check                                     -> st bmoff= bmlen= lf= fsize= crz= tree= runs= live=
 //   sync | reopen | clear <trim>
@@ -37,6 +38,25 @@ static iwrc l_onwrite(struct iwdlsnr *s, off_t off, const void *b, off_t len, in
 static iwrc l_onresize(struct iwdlsnr *s, off_t o, off_t n, int fl, bool *handled) { *handled = false; return 0; }
 static iwrc l_onsynced(struct iwdlsnr *s, int fl) { return 0; }
 
+// ---- hook on fsm->pool.copy: which bytes does reallocate move?
+static iwrc (*orig_copy)(struct IWFS_EXT *f, off_t off, size_t siz, off_t noff);
+static struct { int n; long long off, noff; unsigned long long siz; } CP;
+static iwrc hook_copy(struct IWFS_EXT *f, off_t off, size_t siz, off_t noff) {
+  CP.n++; CP.off = off; CP.siz = siz; CP.noff = noff;
+  return orig_copy(f, off, siz, noff);
+}
+static void hook_install(void) {
+  struct fsm *fsm = F.impl;
+  if (fsm && fsm->pool.copy != hook_copy) { orig_copy = fsm->pool.copy; fsm->pool.copy = hook_copy; }
+}
+static const char* cp_text(void) {
+  static char b[96];
+  if (!CP.n) return "cp=-";
+  if (CP.n > 1) return "cp=multi";
+  snprintf(b, sizeof b, "cp=%lld,%llu,%lld", CP.off, CP.siz, CP.noff);
+  return b;
+}
+
 static const char* rcname(iwrc rc) {
   static char b[64];
   iwrc_strip_errno(&rc);
@@ -60,7 +80,9 @@ static iwrc do_open(int trunc) {
                                   .maxoff = 1ULL << 31 },
                       .bpow = cfg.bpow, .mmap_all = cfg.mmapall,
                       .oflags = (cfg.strict ? IWFSM_STRICT : 0) | (cfg.notrim ? IWFSM_NO_TRIM_ON_CLOSE : 0) };
-  return iwfs_fsmfile_open(&F, &o);
+  iwrc rc = iwfs_fsmfile_open(&F, &o);
+  if (!rc) hook_install();
+  return rc;
 }
 static unsigned hdrlen_opt, bmlen_opt;
 
@@ -166,6 +188,7 @@ int main(int argc, char **argv) {
                           .oflags = (cfg.strict ? IWFSM_STRICT : 0) | (cfg.notrim ? IWFSM_NO_TRIM_ON_CLOSE : 0) };
       iwrc rc = iwfs_fsmfile_open(&F, &o);
       opened = !rc;
+      if (opened) hook_install();
       printf("open %s\n", rcname(rc));
     } else if (!strcmp(w[0], "scan") && n == 5) {
       size_t l; uint8_t *b = hx_parse(w[2], &l);
@@ -213,22 +236,25 @@ int main(int argc, char **argv) {
       off_t addr = r.addr, len = r.len;
       // without pattern bytes the old region may lie past EOF; make it file-backed first (copying from past EOF is C12's subject)
       if (!cfg.pat) ((struct fsm*) F.impl)->pool.ensure_size(&((struct fsm*) F.impl)->pool, r.addr + r.len);
+      CP.n = 0;
       iwrc rc = F.reallocate(&F, strtoll(w[2], 0, 10), &addr, &len, (iwfs_fsm_aflags) atoi(w[3]));
       struct fsm *fsm = F.impl;
-      if (rc) printf("realloc %s %lld %lld %lld %lld pat=ok bm=%" PRIu64 ",%" PRIu64 "\n", rcname(rc), (long long) r.addr, (long long) r.len, (long long) r.addr, (long long) r.len, fsm->bmoff, fsm->bmlen);
+      char cpt[96]; strcpy(cpt, cp_text());
+      if (rc) printf("realloc %s %lld %lld %lld %lld pat=ok bm=%" PRIu64 ",%" PRIu64 " %s\n", rcname(rc), (long long) r.addr, (long long) r.len, (long long) r.addr, (long long) r.len, fsm->bmoff, fsm->bmlen, cpt);
       else {
         off_t keep = len < r.len ? len : r.len;
         // a region allocated without SOLID need not be file-backed yet: extend the file before reading the bytes back
         if (cfg.pat && len > 0) ((struct fsm*) F.impl)->pool.ensure_size(&((struct fsm*) F.impl)->pool, addr + len);
         off_t bad = pat_check(addr, keep, r.pid);
-        printf("realloc 0 %lld %lld %lld %lld pat=%s bm=%" PRIu64 ",%" PRIu64 "\n", (long long) r.addr, (long long) r.len, (long long) addr, (long long) len, bad < 0 ? "ok" : "bad", fsm->bmoff, fsm->bmlen);
+        printf("realloc 0 %lld %lld %lld %lld pat=%s bm=%" PRIu64 ",%" PRIu64 " %s\n", (long long) r.addr, (long long) r.len, (long long) addr, (long long) len, bad < 0 ? "ok" : "bad", fsm->bmoff, fsm->bmlen, cpt);
         if (len == 0) { memmove(&live[i], &live[i + 1], sizeof(live[0]) * (nlive - i - 1)); nlive--; }
         else { live[i].addr = addr; live[i].len = len; pat_fill(&live[i]); }
       }
     } else if (!strcmp(w[0], "rawrealloc") && n == 5) {
       off_t addr = addrspec(w[1]), len = strtoll(w[2], 0, 10);
+      CP.n = 0;
       iwrc rc = F.reallocate(&F, strtoll(w[3], 0, 10), &addr, &len, (iwfs_fsm_aflags) atoi(w[4]));
-      if (rc) printf("rawrealloc %s 0 0\n", rcname(rc)); else printf("rawrealloc 0 %lld %lld\n", (long long) addr, (long long) len);
+      if (rc) printf("rawrealloc %s 0 0 %s\n", rcname(rc), cp_text()); else printf("rawrealloc 0 %lld %lld %s\n", (long long) addr, (long long) len, cp_text());
     } else if (!strcmp(w[0], "status") && n == 4) {
       off_t addr = addrspec(w[1]), len;
       if (!strcmp(w[2], "=")) len = (w[1][0] == '#' && nlive) ? live[strtoull(w[1] + 1, 0, 10) % nlive].len : 0;
